@@ -118,9 +118,16 @@ def vertex_on_boundary(t1, t2):
     return False
 
 
-def run(fn, args):
+KEPT = []          # (label, raw result object, its canonical form right after the call): the user keeps what a call returned
+
+
+def run(fn, args, keep=None):
     try:
-        return ("ok", canon(fn(*args)))
+        raw = fn(*args)
+        c = canon(raw)
+        if keep is not None and len(KEPT) < 4000:
+            KEPT.append((keep, raw, c))
+        return ("ok", c)
     except Exception as exc:  # noqa
         return ("exc", type(exc).__name__)
 
@@ -556,12 +563,12 @@ def main():
         fast_fn = getattr(_speedup, pairs[(shim, fname)]["speedup"])
         kind0, genf = GEN[name]
         for idx, (args, kind) in enumerate(genf()):
-            if rep and idx != rep["index"]:
+            if rep and idx != rep["index"] and not rep.get("whole_run"):
                 continue
             # fresh copies for each side (also detects in-place modification differences)
             a = run(pure_fn, [np.array(x, order="F") if isinstance(x, np.ndarray) else x for x in args])
-            b = run(fast_fn, [np.array(x, order="F") if isinstance(x, np.ndarray) else x for x in args])
             rc = {"name": name, "index": idx, "seed": seed, "kind": kind, "args": str([canon(x) for x in args])[:600]}
+            b = run(fast_fn, [np.array(x, order="F") if isinstance(x, np.ndarray) else x for x in args], keep=(name, rc))
             res.count((name, str([canon(x) for x in args])), op=name, kind=kind.split(":")[0], outcome=a[0] if a[0] == "exc" else "ok")
             if idx < 1:
                 res.sample({"op": name, "kind": kind, "pure": str(a)[:100], "compiled": str(b)[:100]})
@@ -579,6 +586,16 @@ def main():
                         and vertex_on_boundary(args[0], args[2]):
                     key = "tri-intersect:vertex-on-boundary:py-raises-f90-returns"
                 res.failure(key, "%s: %s" % (name, detail), rc)
+    # what the compiled call returned must still be what it returned: results are kept (as a program keeps them) and read again
+    # after all later calls; the pure implementation always hands out fresh arrays
+    if not rep or rep.get("whole_run"):
+        for (name, rc), raw, c0 in KEPT:
+            c1 = canon(raw)
+            if c1 != c0:
+                res.failure("py-vs-f90:%s:result-changed-by-later-calls" % name, "%s: the value returned by the compiled routine read %s right after "
+                            "the call and %s after later calls of the run (the pure implementation returns independent arrays)" %
+                            (name, str(c0)[:160], str(c1)[:160]), dict(rc, whole_run=True))
+                break
     res.emit()
     if rep:
         bad = bool(res.failures)
